@@ -20,12 +20,12 @@ impl<T> MultipleWriteRequest<T> where WriteMultiple<T>: Serialize {
 //@|    requires cursor.wf(),
 //@|    ensures final(self).request == old(self).request,
 //@|        r is Ok <==> (cursor.rest().len() == 4 && <AddressRange as Parse>::spec_parse(cursor.rest()) == Some(old(self).request.range)),
-//@|        r is Err ==> final(self).promise.outcome() == old(self).promise.outcome() && !(r->Err_0 is Exception),
+//@|        r is Err ==> final(self).promise.outcome() == old(self).promise.outcome() && (r->Err_0 is BadResponse || r->Err_0 is BadRequest),
 //@|        r is Ok ==> final(self).promise.outcome() == (if old(self).promise.outcome() is None { Some(Ok::<AddressRange, RequestError>(old(self).request.range)) } else { old(self).promise.outcome() }),
 //@fn rodbus/src/client/requests/write_multiple.rs | MultipleWriteRequest<T>::parse_all | tags=C04,C07 | r10 r10id=0
 //@|    requires cursor.wf(),
 //@|    ensures
 //@|        r is Ok <==> (cursor.rest().len() == 4 && <AddressRange as Parse>::spec_parse(cursor.rest()) == Some(self.request.range)),
 //@|        r is Ok ==> r->Ok_0 == self.request.range,
-//@|        r is Err ==> !(r->Err_0 is Exception),
+//@|        r is Err ==> (r->Err_0 is BadResponse || r->Err_0 is BadRequest),
 }
